@@ -89,6 +89,10 @@ func read(r *rt.Runtime, f *File, readers []formatReader, next rt.Cont) error {
 	if len(readers) == 0 {
 		readers = []formatReader{lineReader(false)}
 	}
+	// What is read ends up in Lua strings: it is accounted to the running
+	// context as it is read.
+	f.charge = func(n int) { r.RequireBytes(n) }
+	defer func() { f.charge = nil }()
 	for i, reader := range readers {
 		val, readErr := reader(f)
 		if readErr == nil {
